@@ -13,6 +13,8 @@ Not decided: rounding-level differences between scales; the CylinderSegment log-
 """
 from __future__ import annotations
 
+import re
+
 import ast
 
 import dim_rules
@@ -38,9 +40,14 @@ def collect(res, results, geom, want_fields="BH"):
     return errors
 
 
+# reduced-precision sites confirmed by reading: one line of reason each
+REDUCED_PRECISION_TRIAGED = {
+    ("get_intersecting_triangles",): "KD-tree candidate search of the self-intersection *diagnostic* (status_selfintersecting); never on the field path",
+}
+
 def run(repo, res, tier):
     res.rules = ["(a) return degree per class", "(b) homogeneous comparisons/masks", "(c) no length+-literal, dimensionless transcendental args",
-                 f"(d) |length exponent| <= {MAX_EXP}"]
+                 f"(d) |length exponent| <= {MAX_EXP}", "(e) no decimal rounding of dimensional data", "(f) no reduced-precision casts on the numerical path"]
     results = dim_rules.run_fields()
     geom = dim_rules.run_geometry()
     res.require(len(results) >= 40, f"only {len(results)} field-function runs (expected >= 40): registry anchors changed")
@@ -54,7 +61,9 @@ def run(repo, res, tier):
                 continue
             seen.add(fd.key())
             n_find += 1
-            res.add(Finding(fd.kind, fd.module + ".py", fd.func, fd.node, fd.msg, getattr(fd.node, "lineno", None)))
+            f_ = Finding(fd.kind, fd.module + ".py", fd.func, fd.node, fd.msg, getattr(fd.node, "lineno", None))
+            f_.sig = ",".join(re.findall(r"D\([^)]*\)", fd.msg))
+            res.add(f_)
         if r["error"]:
             errors.append(f"{r['entry']}/{r.get('field', '-')}: {r['error']}")
     for r in results:
@@ -96,6 +105,24 @@ def run(repo, res, tier):
                     res.add(Finding("abs-quantisation", m.rel, qn, c, "rounding to a fixed number of decimals quantises lengths/fields in absolute units: "
                                     "results change with the choice of unit", c.lineno))
     res.analysed["rounding_calls_outside_display"] = n_round
+    # (f) no reduced-precision casts on the numerical path: single precision keeps 7 digits of the *absolute* coordinates (offsets such
+    #     as the fixed ray origin of the inside test included), so small bodies lose their geometry while large ones do not
+    n_cast = 0
+    for m, qn, fn, cl in repo.all_functions():
+        if any(t in m.name for t in (".display", ".style", ".defaults")):
+            continue
+        for c in ast.walk(fn):
+            low = (isinstance(c, ast.Attribute) and c.attr in ("float32", "float16", "half", "single")) or \
+                  (isinstance(c, ast.Constant) and c.value in ("float32", "float16", "f4", "f2", "single", "half"))
+            if not low:
+                continue
+            n_cast += 1
+            ok = (fn.name, ) in REDUCED_PRECISION_TRIAGED
+            res.ob(f"(f):{qn}:{fn.name}", ok, {"rule": "(f)", "function": qn, "triaged": REDUCED_PRECISION_TRIAGED.get((fn.name,), None)})
+            if not ok:
+                res.add(Finding("reduced-precision", m.rel, qn, c, "single/half precision on the numerical path: coordinates keep ~7 digits in absolute terms, so the "
+                                "result depends on the scale of the body relative to fixed offsets", c.lineno))
+    res.analysed["reduced_precision_casts"] = n_cast
     res.analysed.update({"field_function_runs": len(results), "geometry_helper_runs": len(geom), "dim_findings_distinct": n_find})
     res.assumptions = sorted(set(res.assumptions))
     res.assumptions += ["declared parameter dimensions (dim_rules.PARAM_DIM) are the specification",
